@@ -264,14 +264,22 @@ class Ctx(object):
             self.solver.pop()
         # a fresh non-incremental solver runs z3's QF_UFBV tactic pipeline (measured ~10x faster on
         # these obligations than the incremental core used for branch feasibility)
-        s2 = z3.SolverFor("QF_UFBV")
-        s2.set("timeout", self.timeout_ms)
-        s2.add(self.solver.assertions())
-        s2.add(neg)
         t0 = time.time()
-        r = s2.check()
+        r = z3.unknown
+        s2 = None
+        # 1st: QF_UFBV tactic pipeline (fast on bit-level obligations); 2nd: the general SMT core
+        # (congruence closure instead of Ackermannisation: needed when thousands of UF applications
+        # are involved, e.g. a CBC-MAC over 64 KiB of associated data)
+        for mk, tmo in ((lambda: z3.SolverFor("QF_UFBV"), min(self.timeout_ms, 25000)), (lambda: z3.Solver(), self.timeout_ms)):
+            s2 = mk()
+            s2.set("timeout", tmo)
+            s2.add(self.solver.assertions())
+            s2.add(neg)
+            r = s2.check()
+            self.stats['queries'] += 1
+            if r != z3.unknown:
+                break
         self.stats['solver_s'] += time.time() - t0
-        self.stats['queries'] += 1
         if DEBUG_SLOW and time.time() - t0 > DEBUG_SLOW:
             print("SLOW CHECK %.1fs %s %s" % (time.time() - t0, r, label))
         if r == z3.unsat:
